@@ -13,7 +13,8 @@ HYPOTHESES = ['HB4_hash']
 NOT_YET_PROVED = []
 ASSUMPTIONS = []
 nontrivial = nontrivial_default
-EXTRA_MODULES = {"Props.TieSwu": "PyEcc.Tie.", "Props.TieCofactor": "PyEcc.Tie.", "Props.TieHashIso": "PyEcc.Tie."}
+EXTRA_MODULES = {"Props.TieSwu": "PyEcc.Tie.", "Props.TieCofactor": "PyEcc.Tie.", "Props.TieHashIso": "PyEcc.Tie.", "Props.TieFieldsFq": "PyEcc.Tie.", "Props.TieFieldsFqp": "PyEcc.Tie."}
+
 P = O.BLS_P
 CHUNK = 8
 
